@@ -28,7 +28,7 @@ pub fn quick_runs(prop: &str) -> u64 {
     match prop {
         "C06" => 4_800,
         "C09" => 4_000,
-        "C19" => 4_000,
+        "C19" => 3_000,
         "C07" => 12_000,
         _ => 32_000,
     }
